@@ -6,6 +6,7 @@ reported best of differential evolution and Powell.
 -/
 import MysticVerif.Props.C03
 import MysticVerif.Props.Solve
+import MysticVerif.Props.Reconfig
 
 namespace MysticVerif.C03
 open MysticVerif.Solver MysticVerif.Closed MysticVerif.SolveProps MysticVerif.PowellS
